@@ -4,7 +4,8 @@
              CensusRelabelInvariant, CensusIgnoresLarge, ThreePassCover ... over ALL hypergraphs on 4 nodes
              (sizes 1..4) and the canonical-form invariants over ALL directed hypergraphs on 3 nodes
 2. execute   real Hypergraph / DirectedHypergraph objects (integer label maps, insertion histories, extra
-             larger hyperedges = the "variants" of one abstract hypergraph), compute_motifs /
+             larger hyperedges = the "variants" of one abstract hypergraph; families: all / sampled small
+             universes, random, nested 3-in-4 hyperedges, look-alike directed patterns side by side), compute_motifs /
              compute_directed_motifs(..., runs_config_model=0)['observed'] logged as returned
 3. validate  TLC evaluates Trace_C11 (Motifs.tla) on every case: the specification decides
 """
@@ -371,17 +372,16 @@ def dir_twin_inputs(tier, rng):
     for k in (4, 3):
         tw = dir_twins(k, tier)
         picks = []
-        for level, quota in (("fine", 26 if k == 4 else 6), ("coarse", 10 if k == 4 else 4)):
+        quotas = {"quick": {"fine": (26, 6), "coarse": (10, 4)}, "thorough": {"fine": (500, 20), "coarse": (250, 60)}}[tier]
+        for level in ("fine", "coarse"):
             fams = list(tw[level])
             rng.shuffle(fams)
-            if tier == "quick":
-                fams = fams[:quota]
-            picks += [(level, f) for f in fams]
+            picks += [(level, f) for f in fams[:quotas[level][0 if k == 4 else 1]]]
         for level, f in picks:
             f = list(f)
             rng.shuffle(f)
             groups = MAXN // k
-            combos = [f[:groups]] if tier == "quick" else [list(c) for c in itertools.combinations(f, 2)][:6]
+            combos = [f[:groups]] if tier == "quick" or len(f) <= groups else [list(c) for c in itertools.combinations(f, 2)][:3]
             for chosen in combos:
                 nodes = list(range(1, k * len(chosen) + 1))
                 rng.shuffle(nodes)
@@ -598,6 +598,9 @@ def run(tier, seed):
             directed_variants_off_the_anchor_enumeration=info.get("info_dir_anchor_enumeration", 0),
             variants_skipped_container_error=skipped,
             exhaustive=(tier == "thorough"))
+    res.coverage["cases_by_origin"] = {}
+    for s in specs:
+        res.coverage["cases_by_origin"][s["origin"]] = res.coverage["cases_by_origin"].get(s["origin"], 0) + 1
     res.coverage["variants_by_tag"] = {}
     for s in specs:
         for v in s["variants"]:
@@ -612,6 +615,11 @@ def run(tier, seed):
                "directed hyperedges have disjoint, non-empty source and target sets",
                "thorough: all 2048 hypergraphs on 4 nodes with sizes 2..4 (+ random singletons) for both orders and all 4096 "
                "directed hypergraphs on 3 nodes; quick: seeded samples of them; hypergraphs on 5..7 nodes are sampled",
+               "nested: hypergraphs on 5..6 nodes made of a few 4-node (and 3-node) hyperedges with most of their sub-hyperedges and little "
+               "else (node sets that only the pass seeded at the (k-1)-hyperedges reaches); thorough adds one representative of every "
+               "isomorphism class of the 2^15 hypergraphs on 5 nodes with hyperedges of 3 and 4 nodes, under a random label permutation",
+               "look-alike: ONE directed hypergraph holding two (order 3: three) NON-isomorphic patterns on disjoint node sets that agree in "
+               "simple invariants (per-node incidence profile; or hyperedge shapes and degree sequence), built in both insertion orders",
                "for directed hypergraphs only what the statement promises is verdict-bearing (canonical representative, "
                "each class once, invariance under labels / history / larger hyperedges, count <= number of node sets "
                "showing the pattern); equality with the enumeration the anchors describe is reported as information")
